@@ -28,7 +28,7 @@ def gen_cases(rng, tier):
     i = 0
     for variant in ['one-shot', 'one-shot-press', 'one-shot-release', 'one-shot-press-pcancel', 'one-shot-release-pcancel']:
         for T in ([20] if tier == 'quick' else [2, 20, 200]):
-            for red in (['5'] if tier == 'quick' else ['5', '1', '20']):
+            for red in (['5', '0'] if tier == 'quick' else ['5', '1', '20', '0']):
                 inner = ['lsft', 'lctl', '(layer-while-held l1)']
                 cfg = ('(defcfg rapid-event-delay %s)\n(defsrc a s d f g)\n(deflayer l0 %s x y)\n(deflayer l1 1 2 3 4 5)'
                        % (red, ' '.join('(%s %d %s)' % (variant, T, a) for a in inner)))
@@ -49,7 +49,7 @@ def gen_cases(rng, tier):
         for T in (50, 200):
             for _ in range(4 if tier == 'quick' else 60):
                 kind = rng.choice(['next-key', 'next-key', 'expire'])
-                cfg = '(defsrc a s d f g)\n(deflayer l0 (%s %d lsft) b c x y)' % (variant, T)
+                cfg = '(defcfg rapid-event-delay %d)\n(defsrc a s d f g)\n(deflayer l0 (%s %d lsft) b c x y)' % (rng.choice([0, 1, 5]), variant, T)
                 h = ['t5', 'p0,30', 't%d' % rng.randint(1, 4), 'r0,30']
                 if kind == 'expire':
                     h += ['t%d' % (T + rng.choice([8, 40]))]
@@ -65,7 +65,7 @@ def gen_cases(rng, tier):
     for i in range(30 if tier == 'quick' else 600):
         T = rng.choice([30, 100])
         variant = rng.choice(['one-shot', 'one-shot-press', 'one-shot-release', 'one-shot-press-pcancel', 'one-shot-release-pcancel'])
-        cfg = '(defsrc a s d)\n(deflayer l0 (%s %d lsft) b c)' % (variant, T)
+        cfg = '(defcfg rapid-event-delay %d)\n(defsrc a s d)\n(deflayer l0 (%s %d lsft) b c)' % (rng.choice([0, 0, 1, 5]), variant, T)
         h = ['t3', 'd30', 't%d' % rng.choice([5, T - 1, T + 1, T + 40, 3 * T]), 'u30', 't%d' % rng.choice([1, T // 2, T - 1, T + 1, T + 30]),
              'd31', 't5', 'u31', 't%d' % rng.choice([5, T + 20]), 'd32', 't3', 'u32', 't%d' % (T + 50)]
         lp.append({'id': 'c06-loop-%d' % i, 'cfg': cfg, 'hist': h, 'sub': 'ksim', 'tags': {'mode': 'loop-pair', 'variant': variant}})
